@@ -7,7 +7,15 @@ From Verif.model Require Import Slurper.
 Import ListNotations.
 Open Scope N_scope.
 
+(* the only division in the development: the buffers array has a slot for every buffer that
+   the allocation budget allows *)
 Ltac Zify.zify_post_hook ::= Z.div_mod_to_equations.
+Lemma slots_enough (e r : N) :
+  0 < r -> e + 1 < 1 + (e * 65536 + r + 65536 - 1) / 65536.
+Proof. intros. lia. Qed.
+Lemma mod_small_two64 (x : N) : x < 18446744073709551616 -> x mod 18446744073709551616 = x.
+Proof. intros. apply N.mod_small. assumption. Qed.
+Ltac Zify.zify_post_hook ::= idtac.
 
 (* ------------------------------------------------------------------ segments and slices *)
 Inductive Chain : N -> list (N * N) -> N -> Prop :=
@@ -437,7 +445,11 @@ Proof.
       destruct G4 as [G4|G4]; [contradiction|].
       pose proof (sum_cap_all_step _ G4) as Hsc.
       destruct (N.leb_spec (nslots s) (N.of_nat (length (ext s)) + 1)) as [Hns|Hns].
-      { exfalso. unfold allocationStep in *. rewrite G3 in Hns. rewrite Hsc in G2. lia. }
+      { exfalso. unfold allocationStep in *. rewrite G3 in Hns. rewrite Hsc in G2.
+        assert (Hr : 0 < remained s) by lia.
+        pose proof (slots_enough (N.of_nat (length (ext s))) (remained s) Hr) as Hse.
+        replace (M - B + 65536 - 1) with (N.of_nat (length (ext s)) * 65536 + remained s + 65536 - 1) in Hns by lia.
+        lia. }
       set (sz := N.min allocationStep (remained s)).
       set (s1 := mkS (remained s - sz) (bytesRead s) (maxSize s) (nslots s) (b0 s)
                      (mkBuf sz 0 [] :: ext s)).
